@@ -469,7 +469,7 @@ def clause_e(c: Check):
     for n in walk_own(visit.node):
         if isinstance(n, ast.If) and isinstance(n.test, ast.Call) and unparse(n.test.func) == 'isinstance':
             d = ix.resolve_static(visit.module, visit, n.test.args[1])
-            r = n.body[0].value if isinstance(n.body[0], ast.Return) else None
+            r = util.block_return(visit, n.body)
             if isinstance(d, ClassDef) and isinstance(r, ast.Call) and isinstance(r.func, ast.Attribute):
                 routed[d.key] = r.func.attr
     base = ix.cls(CORE + ':CrossReferenceTarget')
